@@ -39,7 +39,7 @@ def check(run):
     #      refine it, C06_*_refines), and the three backends must agree with each other through the model.
     big = []
     for backend in treegen.BACKENDS:
-        for depth, n in ([(15, 2**14 + 5)] if quick else [(15, 2**14 + 5), (17, 2**16 + 1), (16, 40000)]):
+        for depth, n in ([(15, 2**14 + 5)] if quick else [(15, 2**14 + 5), (17, 2**16 + 1), (16, 40000), (17, 120000)]):
             st = 3
             tail = [st + 2**14 - 1, st + 2**14, st + n - 1, st + n]
             seq = [f"tree new {backend} {depth}", f"range {hex(st)} gen:{hex(n)}:0x10", "root", "next", "empty", "digest"]
@@ -48,4 +48,4 @@ def check(run):
             seq += [f"range {hex(n // 2)} gen:{hex(2**14 + 1)}:0x99999", "root", "next", f"get {hex(n // 2 + 2**14)}", f"app 0x5", "root", "next", "digest"]
             big.append(seq)
     run.differential("tree-long-ranges", big, spec=False, shrink=False)
-    run.rules.append("one range write of 2^14+5 leaves (thorough: also 2^16+1 and 40000) at an unaligned start on each backend, followed by writes / deletions at its tail, a second overlapping long range and an append, with root, leaf count, empty list, tail leaves, subtree roots and a digest of every node of every level observed (implementation vs model); random op sequences over {set, delete, append, write_range, reset} with positions inside / at / beyond capacity (incl. 2^32, 2^63, 2^64-1), depths 1..7 with EVERY observable (root, all subtree roots, all leaves, high-water mark, empty list) compared after every op, depths 10/16/20 with sampled observables; each of the three backends; distinct = distinct op sequence")
+    run.rules.append("one range write of 2^14+5 leaves (thorough: also 2^16+1, 40000 and 120000 — beyond 8 MiB of node entries) at an unaligned start on each backend, followed by writes / deletions at its tail, a second overlapping long range and an append, with root, leaf count, empty list, tail leaves, subtree roots and a digest of every node of every level observed (implementation vs model); random op sequences over {set, delete, append, write_range, reset} with positions inside / at / beyond capacity (incl. 2^32, 2^63, 2^64-1), depths 1..7 with EVERY observable (root, all subtree roots, all leaves, high-water mark, empty list) compared after every op, depths 10/16/20 with sampled observables; each of the three backends; distinct = distinct op sequence")
